@@ -123,3 +123,94 @@ def job_custom_claim_keys(ses):
     report(ses, res, 'CustomClaim::try_from (tuple and key-only forms) on every UTF-8 key of 2-4 bytes: Err iff the key is one of the seven reserved names',
            'CustomClaim constructor decides the reserved-key question wrongly for some short key', replay_recipe={'kind': 'c18', 'form': 'tuple_str', 'model': {}})
     ses.bounds['kani k5'] = 'keys of exactly 3 and 4 bytes (2 as well in thorough), all byte values, unwind 9'
+
+
+# ----------------------------------------------------------------------------- K2: PAE::parse against the byte-level reference (small pieces, symbolic contents)
+K2 = '''
+use crate::core::common::PreAuthenticationEncoding;
+
+fn reference(pieces: &[&[u8]]) -> Vec<u8> {
+    let mut out: Vec<u8> = Vec::new();
+    let n = pieces.len() as u64;
+    let mut i = 0; while i < 8 { out.push(((n >> (8 * i)) & 0xff) as u8); i += 1; }
+    let mut p = 0;
+    while p < pieces.len() {
+        let l = pieces[p].len() as u64;
+        let mut i = 0; while i < 8 { out.push(((l >> (8 * i)) & 0xff) as u8); i += 1; }
+        let mut j = 0; while j < pieces[p].len() { out.push(pieces[p][j]); j += 1; }
+        p += 1;
+    }
+    out
+}
+
+#[kani::proof]
+#[kani::unwind(48)]
+fn k2_pae_3_pieces() {
+    let a: [u8; 1] = kani::any(); let b: [u8; 2] = kani::any(); let c: [u8; 0] = [];
+    let pieces: [&[u8]; 3] = [&a, &b, &c];
+    let got = PreAuthenticationEncoding::parse(&pieces);
+    let want = reference(&pieces);
+    assert!(got.len() == want.len(), "PAE length");
+    let mut i = 0;
+    while i < want.len() { assert!(got[i] == want[i], "PAE byte"); i += 1; }
+    std::mem::forget(got); std::mem::forget(want);
+}
+
+#[kani::proof]
+#[kani::unwind(48)]
+fn k2_pae_4_pieces() {
+    let a: [u8; 2] = kani::any(); let b: [u8; 0] = []; let c: [u8; 1] = kani::any(); let d: [u8; 1] = kani::any();
+    let pieces: [&[u8]; 4] = [&a, &b, &c, &d];
+    let got = PreAuthenticationEncoding::parse(&pieces);
+    let want = reference(&pieces);
+    assert!(got.len() == want.len(), "PAE length");
+    let mut i = 0;
+    while i < want.len() { assert!(got[i] == want[i], "PAE byte"); i += 1; }
+    std::mem::forget(got); std::mem::forget(want);
+}
+'''
+
+
+def job_pae(ses):
+    res = run_kani(K2, 'src/core/mod.rs', ['core::verif_harness::k2_pae_3_pieces', 'core::verif_harness::k2_pae_4_pieces'], timeout=900)
+    report(ses, res, 'PreAuthenticationEncoding::parse == LE64(n) || (LE64(len) || piece)* on 3-4 pieces of 0-2 symbolic bytes (compiled code)',
+           'the pre-authentication encoding differs from the specification\'s PAE',
+           replay_recipe={'kind': 'spec_local', 'proto': 'v4.local', 'fkind': 'some', 'akind': 'some', 'model': {'key': '07' * 32, 'nonce': '09' * 32, 'message': '6d', 'footer': '66', 'assertion': '69'}})
+    ses.bounds['kani k2_pae'] = '3 and 4 pieces of 0-2 bytes, contents symbolic, unwind 48'
+
+
+# ----------------------------------------------------------------------------- K4: Key::<N>::try_from(&str) with the real hex crate
+K4 = '''
+use crate::core::Key;
+use core::convert::TryFrom;
+
+macro_rules! k4 {
+    ($name:ident, $n:expr, $len:expr) => {
+        #[kani::proof]
+        #[kani::unwind(12)]
+        fn $name() {
+            let bytes: [u8; $len] = kani::any();
+            let mut i = 0;
+            while i < $len { kani::assume(bytes[i] < 0x80); i += 1; }
+            let s = str_unchecked(&bytes);      // ASCII by assumption; std's from_utf8 on symbolic bytes is a known CBMC cliff
+            let r = Key::<$n>::try_from(s);
+            kani::cover!(r.is_ok(), "a key parses");
+            std::mem::forget(r);
+        }
+    };
+}
+k4!(k4_key2_len0, 2, 0);
+k4!(k4_key2_len2, 2, 2);
+k4!(k4_key2_len4, 2, 4);
+k4!(k4_key2_len6, 2, 6);
+k4!(k4_key1_len3, 1, 3);
+'''
+
+
+def job_key_hex(ses):
+    hs = ['core::verif_harness::k4_key2_len0', 'core::verif_harness::k4_key2_len2', 'core::verif_harness::k4_key2_len4', 'core::verif_harness::k4_key2_len6', 'core::verif_harness::k4_key1_len3']
+    res = run_kani(K4, 'src/core/mod.rs', hs, timeout=900, support=True)
+    report(ses, res, 'Key::<N>::try_from(&str) with the real hex crate never panics: N in {1,2}, every ASCII string of 0-6 bytes', 'Key::try_from(&str) panics on a hex string',
+           replay_recipe={'steps': [{'op': 'key_hex', 'size': 32, 'hex': h, 'out': 'R%d' % i} for i, h in enumerate(['', '00', '0000', 'zz', '0' * 62, '0' * 66])],
+                          'violated_if': [[{'var': 'R%d' % i, 'is': 'panic'}] for i in range(6)]})
+    ses.bounds['kani k4_key_hex'] = 'Key<1>, Key<2>; ASCII strings of length 0,2,3,4,6'
